@@ -54,6 +54,31 @@ def run_check(tier, seed, replay=None):
         c.violation("history:%s:%s:%s" % (rs.get("kind"), ev.get("e"), ev.get("result", "")),
                     "data written by the reference build: %s [%s %s]" % (json.dumps(ev), rs.get("kind"), json.dumps(rs.get("label"))[:160]),
                     {"kind": "history", "seed": seed, "reset": rs, "event": ev})
+    # frozen implicit format: the current build's predictions recomputed by Match.tla (no
+    # reference build involved): hash function, dictionary policy, candidate order, search
+    # limits and the lazy rule are part of what gives stored corrections their meaning
+    same_versions = not (resets and resets[0]["versions"]["ref"] != resets[0]["versions"]["cur"])
+    mtr = os.path.join(wd, "match.trace")
+    vh(["match-record", "--seed", seed, "--streams", 40 if q else 600, "--sweeps", 6 if q else 40, "--window", 4,
+        "--maxplain", 4000 if q else 12000, "--out", mtr], timeout=7200)
+    mcases = {r["run"]: r for r in read_ndjson(mtr + ".cases")}
+    macc, mrej, mstates = validate_runs("Trace_Match", wd, mtr, view="TraceView", heap="12g", timeout=6000)
+    supported = sum(1 for x in read_ndjson(mtr) if x["e"] == "Reset" and x["supported"])
+    c.cov["traces_validated_against_impl"] += macc
+    c.cov["states"] += mstates
+    c.cov["transitions"] += mstates
+    c.cov["prediction_traces"] = {"runs": len(mcases), "with_modelled_hash": supported}
+    if supported == 0:
+        raise ToolError("vacuity: no stream used a hash function Match.tla models")
+    for x in mrej:
+        ev = x["event"]
+        case = mcases.get(x["run"], {})
+        if not same_versions:
+            continue
+        c.violation("prediction:%s" % ev.get("e"),
+                    "the predictor no longer predicts what the frozen format (Match.tla) demands: %s on %s, parameters %s" % (
+                        json.dumps(ev), x["reset"].get("label"), x["reset"].get("params")),
+                    {"kind": "deflate-hex", "hex": case.get("hex"), "event": ev, "seed": seed})
     for x in resets[:2] + resets[-2:]:
         c.sample({"kind": x["kind"], "label": x["label"], "len": x["len"]})
     return c.finish(rule="evaluations = objects (correction data of a stream, container of a file) written by the frozen "
